@@ -302,7 +302,7 @@ func kvRes(es nutsdb.Entries) []Ev {
 			out = append(out, Ev{"k": []int{}, "v": "<nil entry>"})
 			continue
 		}
-		out = append(out, Ev{"k": K(x.Key), "v": string(x.Value)})
+		out = append(out, Ev{"k": K(x.Key), "v": V(x.Value)})
 	}
 	return out
 }
@@ -312,7 +312,7 @@ func kvRes(es nutsdb.Entries) []Ev {
 func (t *Tx) Put(b string, k, v []byte, ttl uint32) error {
 	var err error
 	e := t.ev("put", b)
-	e["k"], e["v"], e["ttl"] = K(k), string(v), int(ttl)
+	e["k"], e["v"], e["ttl"] = K(k), V(v), int(ttl)
 	e["tsLo"] = t.S.now()
 	e["tsHi"] = e["tsLo"]
 	t.S.guard(e, func() { err = t.T.Put(b, k, v, ttl); e["err"] = err != nil; e["tsHi"] = t.S.now() })
@@ -322,7 +322,7 @@ func (t *Tx) Put(b string, k, v []byte, ttl uint32) error {
 func (t *Tx) PutTS(b string, k, v []byte, ttl uint32, ts uint64) error {
 	var err error
 	e := t.ev("put", b)
-	e["k"], e["v"], e["ttl"] = K(k), string(v), int(ttl)
+	e["k"], e["v"], e["ttl"] = K(k), V(v), int(ttl)
 	e["tsLo"], e["tsHi"] = t.S.R.Rel(int64(ts)), t.S.R.Rel(int64(ts))
 	t.S.guard(e, func() { err = t.T.PutWithTimestamp(b, k, v, ttl, ts); e["err"] = err != nil })
 	return err
@@ -350,7 +350,7 @@ func (t *Tx) Get(b string, k []byte) (string, error) {
 			if x == nil {
 				e["v"] = "<nil entry>"
 			} else {
-				v = string(x.Value)
+				v = V(x.Value)
 				e["v"] = v
 				if string(x.Key) != string(k) {
 					e["v"] = "<foreign key " + string(x.Key) + ">" + v
@@ -858,7 +858,7 @@ func ObserveDB(db *nutsdb.DB, u *Universe) (o Ev, err error) {
 					kv = append(kv, Ev{"b": b, "k": []int{}, "v": "<nil entry>"})
 					continue
 				}
-				kv = append(kv, Ev{"b": b, "k": K(x.Key), "v": string(x.Value)})
+				kv = append(kv, Ev{"b": b, "k": K(x.Key), "v": V(x.Value)})
 			}
 		}
 		for _, b := range u.LsBuckets {
@@ -953,6 +953,29 @@ func ObserveCopy(opt nutsdb.Options, dir string, u *Universe) (o Ev, err error) 
 	}
 	defer db.Close()
 	return ObserveDB(db, u)
+}
+
+// Backup calls DB.Backup into dir, opens the copy with the same options and
+// records what it shows (quiescent backup, C18).
+func (s *Sess) Backup(dir string) {
+	e := Ev{"op": "backup"}
+	s.guard(e, func() {
+		os.RemoveAll(dir)
+		err := s.DB.Backup(dir)
+		e["err"] = err != nil
+		e["o"] = Ev{"kv": []Ev{}, "ls": []Ev{}, "st": []Ev{}, "zs": []Ev{}}
+		if err != nil {
+			e["msg"] = err.Error()
+			return
+		}
+		o, err := ObserveCopy(s.Opt, dir, s.U)
+		if err != nil {
+			e["err"], e["msg"] = true, err.Error()
+		} else {
+			e["o"] = o
+		}
+		os.RemoveAll(dir)
+	})
 }
 
 // Shadow records a shadow reopen: the directory is copied and the copy is
